@@ -4,6 +4,7 @@
 # suite still passes with it, demo.py fails with it and passes without it; then files it under seeded/<name>/.
 set -u
 SRC=$1; NAME=$2
+mkdir -p /tmp/mut
 WT=/tmp/mut/confirm-$$
 git -C /repo worktree add -q --detach "$WT" HEAD || exit 2
 trap 'git -C /repo worktree remove --force "$WT" >/dev/null 2>&1' EXIT
